@@ -49,12 +49,12 @@ type fdef struct {
 	arity int
 }
 
-func I(n int) N               { return N{"k": "int", "v": n} }
-func lit(v N) N               { return N{"k": "lit", "v": v} }
-func nilV() N                 { return N{"k": "nil"} }
-func (g *gen) fresh() string  { g.vctr++; return fmt.Sprintf("v%d", g.vctr) }
-func sym(n string) N          { return N{"k": "sym", "v": n} }
-func str(x string) N          { return N{"k": "str", "v": x} }
+func I(n int) N              { return N{"k": "int", "v": n} }
+func lit(v N) N              { return N{"k": "lit", "v": v} }
+func nilV() N                { return N{"k": "nil"} }
+func (g *gen) fresh() string { g.vctr++; return fmt.Sprintf("v%d", g.vctr) }
+func sym(n string) N         { return N{"k": "sym", "v": n} }
+func str(x string) N         { return N{"k": "str", "v": x} }
 func lst(es ...any) N {
 	if len(es) == 0 {
 		return nilV()
